@@ -1,7 +1,9 @@
 import PhysisModel.Proofs.MdlLayout
 /-!
-The random-access part of `MDL::from_existing` on `encodeMdl m` (all abstract models, no bounds
-other than `WF`):
+The random-access part of `MDL::from_existing` (all abstract models, no bounds other than `WF`),
+for **every file with the layout of `m`** (`SameLayout m file`: the two header parses return
+`fileHeader m` / `modelData m`, and the geometry sections of `m` lie at `dataStart m`); the
+statements about `encodeMdl m` are the instances `sameLayout_encode`:
 
 1. `element_address` — the `u32` address arithmetic of `elementAddress` does not overflow and
    points at the element's slice of the abstract stream (`IsSlice` / `psum` prefix sums);
@@ -11,6 +13,12 @@ other than `WF`):
 5. `readPart_eq`, `readLod_eq`, `parse_encode_core`, `parse_encode_noshapes`;
 6. `readShapes_eq` (the code's shape selection agrees with `shapesOf`) and hence `parse_encode` /
    `parse_encode_view` without the `m.shapes = []` restriction.
+
+The lemmas in the namespace `SameLayout` are the general statements (`L : SameLayout m file`); the
+lemmas of the same name outside it are their instances on `encodeMdl m`.  The only facts used about
+the bytes of the file are the two fields of `SameLayout`; every bound on an address is derived from
+`WF m` (through the instance `sections_slice` and `WFacts.fileLen`), so nothing is assumed about
+the length of `file`.
 
 The SoftFloat functions are never unfolded.  The internal statements are about the explicit rows
 `lodRowOf m i l` / `meshRowOf m i l d mesh`; `lods_row` / `meshes_row` / `decls_row` identify them
@@ -333,11 +341,30 @@ theorem length_encModelData (m : AbstractModel) (a b : Nat) :
       (encModelData m.version (modelDataAt m b)).length := by
   simp only [encModelData, modelDataAt, List.length_append, length_lodRows_enc m.lods 0 a b]
 
+/-- `dataStart m` is the length of the two header blocks -/
+theorem length_headers (m : AbstractModel) :
+    (encFileHeader (fileHeader m) ++ encModelData m.version (modelData m)).length = dataStart m := by
+  rw [List.length_append, length_encFileHeader, dataStart, runtimeBlockSize, modelData,
+    length_encModelData m _ 0]
+
 theorem sections_slice (m : AbstractModel) : IsSlice (encodeMdl m) (dataStart m) (sections m) := by
-  refine ⟨encFileHeader (fileHeader m) ++ encModelData m.version (modelData m), [], ?_, ?_⟩
-  · simp [encodeMdl]
-  · rw [List.length_append, length_encFileHeader, dataStart, runtimeBlockSize, modelData,
-      length_encModelData m _ 0]
+  refine ⟨encFileHeader (fileHeader m) ++ encModelData m.version (modelData m), [], ?_,
+    length_headers m⟩
+  simp [encodeMdl]
+
+/-- `file` has the layout of `m`: the header stage of the reader returns the file header and the
+runtime block of `m` (what is left behind the runtime block is not constrained: the reader drops
+it), and the geometry sections of `m` occupy the bytes of `file` from `dataStart m` on.  Nothing
+else is assumed about `file` — in particular not the bytes of the runtime block that the header
+stage ignores, nor what follows the sections, nor the length. -/
+structure SameLayout (m : AbstractModel) (file : Bytes) : Prop where
+  hdr : ∃ rest rest', parseFileHeader file = .ok (fileHeader m, rest) ∧
+    parseModelData (fileHeader m) rest = .ok (modelData m, rest')
+  sec : IsSlice file (dataStart m) (sections m)
+
+/-- the encoded model has its own layout -/
+theorem sameLayout_encode (m : AbstractModel) (h : WF m = true) : SameLayout m (encodeMdl m) :=
+  ⟨⟨_, _, parse_fileHeader m, parse_modelData m h⟩, sections_slice m⟩
 
 theorem length_vertexSection (l : ALod) : (vertexSection l).length = lodVertexSize l := by
   unfold vertexSection lodVertexSize
@@ -372,38 +399,63 @@ theorem length_lodSections (l : ALod) : (vertexSection l ++ indexSection l).leng
   rw [List.length_append, length_vertexSection, length_indexSection, lodSize]
 
 /-- the two sections of LOD `i` -/
+theorem lod_slice_of {file : Bytes} (m : AbstractModel)
+    (hsec : IsSlice file (dataStart m) (sections m)) (i : Nat) (l : ALod)
+    (hl : m.lods[i]? = some l) :
+    IsSlice file (dataStart m + psum lodSize m.lods i) (vertexSection l ++ indexSection l) :=
+  IsSlice.flatMap (fun l => vertexSection l ++ indexSection l) lodSize length_lodSections m.lods
+    _ i l hsec hl
+
 theorem lod_slice (m : AbstractModel) (i : Nat) (l : ALod) (hl : m.lods[i]? = some l) :
     IsSlice (encodeMdl m) (dataStart m + psum lodSize m.lods i) (vertexSection l ++ indexSection l) :=
-  IsSlice.flatMap (fun l => vertexSection l ++ indexSection l) lodSize length_lodSections m.lods
-    _ i l (sections_slice m) hl
+  lod_slice_of m (sections_slice m) i l hl
 
 theorem length_meshStreams (x : AMesh) : (x.streams.flatMap (·.data)).length = streamSize x :=
   length_flatMap' _ _ (fun _ => rfl) _
 
 /-- stream `j` of mesh `d` of LOD `i` -/
+theorem stream_slice_of {file : Bytes} (m : AbstractModel)
+    (hsec : IsSlice file (dataStart m) (sections m)) (i : Nat) (l : ALod)
+    (hl : m.lods[i]? = some l)
+    (d : Nat) (mesh : AMesh) (hm : l.meshes[d]? = some mesh) (j : Nat) (s : AStream)
+    (hs : mesh.streams[j]? = some s) :
+    IsSlice file
+      (dataStart m + psum lodSize m.lods i + psum streamSize l.meshes d + psum dataLen mesh.streams j)
+      s.data := by
+  have h1 := (lod_slice_of m hsec i l hl).left
+  have h2 := IsSlice.flatMap (fun (x : AMesh) => x.streams.flatMap (·.data)) streamSize
+    length_meshStreams l.meshes _ d mesh h1 hm
+  exact IsSlice.flatMap (fun (s : AStream) => s.data) dataLen (fun _ => rfl) mesh.streams _ j s h2 hs
+
 theorem stream_slice (m : AbstractModel) (i : Nat) (l : ALod) (hl : m.lods[i]? = some l)
     (d : Nat) (mesh : AMesh) (hm : l.meshes[d]? = some mesh) (j : Nat) (s : AStream)
     (hs : mesh.streams[j]? = some s) :
     IsSlice (encodeMdl m)
       (dataStart m + psum lodSize m.lods i + psum streamSize l.meshes d + psum dataLen mesh.streams j)
-      s.data := by
-  have h1 := (lod_slice m i l hl).left
-  have h2 := IsSlice.flatMap (fun (x : AMesh) => x.streams.flatMap (·.data)) streamSize
-    length_meshStreams l.meshes _ d mesh h1 hm
-  exact IsSlice.flatMap (fun (s : AStream) => s.data) dataLen (fun _ => rfl) mesh.streams _ j s h2 hs
+      s.data :=
+  stream_slice_of m (sections_slice m) i l hl d mesh hm j s hs
 
 /-- the index bytes of mesh `d` of LOD `i` -/
-theorem index_slice (m : AbstractModel) (i : Nat) (l : ALod) (hl : m.lods[i]? = some l)
+theorem index_slice_of {file : Bytes} (m : AbstractModel)
+    (hsec : IsSlice file (dataStart m) (sections m)) (i : Nat) (l : ALod)
+    (hl : m.lods[i]? = some l)
     (d : Nat) (mesh : AMesh) (hm : l.meshes[d]? = some mesh) :
-    IsSlice (encodeMdl m)
+    IsSlice file
       (dataStart m + psum lodSize m.lods i + lodVertexSize l + 2 * psum meshIndexWords l.meshes d)
       (meshIndexBytes mesh) := by
-  have h1 := (lod_slice m i l hl).right
+  have h1 := (lod_slice_of m hsec i l hl).right
   rw [length_vertexSection] at h1
   have h2 := IsSlice.flatMap meshIndexBytes (fun x => 2 * meshIndexWords x)
     length_meshIndexBytes l.meshes _ d mesh h1 hm
   rw [psum_two_mul] at h2
   exact h2
+
+theorem index_slice (m : AbstractModel) (i : Nat) (l : ALod) (hl : m.lods[i]? = some l)
+    (d : Nat) (mesh : AMesh) (hm : l.meshes[d]? = some mesh) :
+    IsSlice (encodeMdl m)
+      (dataStart m + psum lodSize m.lods i + lodVertexSize l + 2 * psum meshIndexWords l.meshes d)
+      (meshIndexBytes mesh) :=
+  index_slice_of m (sections_slice m) i l hl d mesh hm
 
 /-! ### what `WF` provides -/
 
@@ -561,36 +613,47 @@ theorem row_strides (m : AbstractModel) (i : Nat) (l : ALod) (d : Nat) (mesh : A
     List.getElem?_map, hs]
   rfl
 
-/-- the facts about one stream needed by every address computation -/
+/-- the facts about one stream needed by every address computation (the bound on the address comes
+from `WF m`, the slice from the layout of `file`) -/
+theorem SameLayout.stream_bounds {m : AbstractModel} {file : Bytes} (L : SameLayout m file)
+    (h : WF m = true) (i : Nat) (l : ALod)
+    (hl : m.lods[i]? = some l) (d : Nat) (mesh : AMesh) (hm : l.meshes[d]? = some mesh)
+    (j : Nat) (s : AStream) (hs : mesh.streams[j]? = some s) :
+    j < 3 ∧ s.data.length = mesh.vertexCount.toNat * s.stride.toNat ∧
+      streamAddr m i l d mesh j + s.data.length < 4294967296 ∧
+      IsSlice file (streamAddr m i l d mesh j) s.data := by
+  have MF := wf_mesh m h hl hm
+  have := (stream_slice m i l hl d mesh hm j s hs).length_le
+  have := (wf_facts m h).fileLen
+  have := lt_of_getElem? hs
+  have := MF.s3
+  exact ⟨by omega, MF.dataLen s (mem_of_getElem? hs), by unfold streamAddr; omega,
+    stream_slice_of m L.sec i l hl d mesh hm j s hs⟩
+
 theorem stream_bounds (m : AbstractModel) (h : WF m = true) (i : Nat) (l : ALod)
     (hl : m.lods[i]? = some l) (d : Nat) (mesh : AMesh) (hm : l.meshes[d]? = some mesh)
     (j : Nat) (s : AStream) (hs : mesh.streams[j]? = some s) :
     j < 3 ∧ s.data.length = mesh.vertexCount.toNat * s.stride.toNat ∧
       streamAddr m i l d mesh j + s.data.length < 4294967296 ∧
-      IsSlice (encodeMdl m) (streamAddr m i l d mesh j) s.data := by
-  have MF := wf_mesh m h hl hm
-  have hsl := stream_slice m i l hl d mesh hm j s hs
-  have := hsl.length_le
-  have := (wf_facts m h).fileLen
-  have := lt_of_getElem? hs
-  have := MF.s3
-  exact ⟨by omega, MF.dataLen s (mem_of_getElem? hs), by unfold streamAddr; omega, hsl⟩
+      IsSlice (encodeMdl m) (streamAddr m i l d mesh j) s.data :=
+  (sameLayout_encode m h).stream_bounds h i l hl d mesh hm j s hs
 
 theorem mul_succ_le {k vc st : Nat} (hk : k < vc) : st * k + st ≤ vc * st := by
   have := Nat.mul_le_mul_right st (show k + 1 ≤ vc from hk)
   rw [Nat.succ_mul, Nat.mul_comm k st] at this
   exact this
 
-theorem element_address' (m : AbstractModel) (h : WF m = true) (i : Nat) (l : ALod)
+theorem SameLayout.element_address' {m : AbstractModel} {file : Bytes} (L : SameLayout m file)
+    (h : WF m = true) (i : Nat) (l : ALod)
     (hl : m.lods[i]? = some l) (d : Nat) (mesh : AMesh) (hm : l.meshes[d]? = some mesh)
     (e : VertexElement) (he : e ∈ mesh.decl) (s : AStream)
     (hs : mesh.streams[e.stream.toNat]? = some s) (k : Nat) (hk : k < mesh.vertexCount.toNat) :
     ∃ a, elementAddress (lodRowOf m i l) (meshRowOf m i l d mesh) e k.toUInt16 = .ok a ∧
       a.toNat = streamAddr m i l d mesh e.stream.toNat + e.offset.toNat + s.stride.toNat * k ∧
       ∀ n, e.offset.toNat + n ≤ s.stride.toNat →
-        readAt (encodeMdl m).toArray a.toNat n =
+        readAt file.toArray a.toNat n =
           some ((s.data.drop (k * s.stride.toNat + e.offset.toNat)).take n) := by
-  obtain ⟨h3, hdl, hlt, hsl⟩ := stream_bounds m h i l hl d mesh hm _ s hs
+  obtain ⟨h3, hdl, hlt, hsl⟩ := L.stream_bounds h i l hl d mesh hm _ s hs
   obtain ⟨_, s', hs', hoff⟩ := (wf_mesh m h hl hm).elems e he
   rw [hs] at hs'; cases hs'
   have hoff' : e.offset.toNat ≤ s.stride.toNat := by
@@ -616,6 +679,40 @@ theorem element_address' (m : AbstractModel) (h : WF m = true) (i : Nat) (l : AL
   rw [hav']
   exact hsl.readAt _ n (by rw [hdl, Nat.mul_comm k]; omega)
 
+theorem element_address' (m : AbstractModel) (h : WF m = true) (i : Nat) (l : ALod)
+    (hl : m.lods[i]? = some l) (d : Nat) (mesh : AMesh) (hm : l.meshes[d]? = some mesh)
+    (e : VertexElement) (he : e ∈ mesh.decl) (s : AStream)
+    (hs : mesh.streams[e.stream.toNat]? = some s) (k : Nat) (hk : k < mesh.vertexCount.toNat) :
+    ∃ a, elementAddress (lodRowOf m i l) (meshRowOf m i l d mesh) e k.toUInt16 = .ok a ∧
+      a.toNat = streamAddr m i l d mesh e.stream.toNat + e.offset.toNat + s.stride.toNat * k ∧
+      ∀ n, e.offset.toNat + n ≤ s.stride.toNat →
+        readAt (encodeMdl m).toArray a.toNat n =
+          some ((s.data.drop (k * s.stride.toNat + e.offset.toNat)).take n) :=
+  (sameLayout_encode m h).element_address' h i l hl d mesh hm e he s hs k hk
+
+/-- **element address**, in every file with the layout of `m` -/
+theorem SameLayout.element_address {m : AbstractModel} {file : Bytes} (L : SameLayout m file)
+    (h : WF m = true) (i : Nat) (l : ALod)
+    (hl : m.lods[i]? = some l) (d : Nat) (mesh : AMesh) (hm : l.meshes[d]? = some mesh)
+    (lod : MeshLod) (hlod : (modelData m).lods[i]? = some lod)
+    (row : Mesh) (hrow : (modelData m).meshes[((m.lods.take i).map (·.meshes.length)).sum + d]? = some row)
+    (e : VertexElement) (he : e ∈ mesh.decl) (s : AStream)
+    (hs : mesh.streams[e.stream.toNat]? = some s) (k : Nat) (hk : k < mesh.vertexCount.toNat) :
+    ∃ a, elementAddress lod row e k.toUInt16 = .ok a ∧
+      a.toNat = dataStart m + ((m.lods.take i).map (fun l => lodVertexSize l + lodIndexSize l)).sum +
+        ((l.meshes.take d).map streamSize).sum +
+        ((mesh.streams.take e.stream.toNat).map (·.data.length)).sum +
+        e.offset.toNat + s.stride.toNat * k ∧
+      ∀ n, e.offset.toNat + n ≤ s.stride.toNat →
+        readAt file.toArray a.toNat n =
+          some ((s.data.drop (k * s.stride.toNat + e.offset.toNat)).take n) := by
+  have h1 := lods_row m i l hl
+  rw [hlod] at h1
+  have h2 := meshes_row m i l hl d mesh hm
+  rw [show psum meshCountOf m.lods i = ((m.lods.take i).map (·.meshes.length)).sum from rfl, hrow] at h2
+  cases h1; cases h2
+  exact L.element_address' h i l hl d mesh hm e he s hs k hk
+
 /-- **element address** (exported as `c06_element_address`) -/
 theorem element_address (m : AbstractModel) (h : WF m = true) (i : Nat) (l : ALod)
     (hl : m.lods[i]? = some l) (d : Nat) (mesh : AMesh) (hm : l.meshes[d]? = some mesh)
@@ -630,13 +727,8 @@ theorem element_address (m : AbstractModel) (h : WF m = true) (i : Nat) (l : ALo
         e.offset.toNat + s.stride.toNat * k ∧
       ∀ n, e.offset.toNat + n ≤ s.stride.toNat →
         readAt (encodeMdl m).toArray a.toNat n =
-          some ((s.data.drop (k * s.stride.toNat + e.offset.toNat)).take n) := by
-  have h1 := lods_row m i l hl
-  rw [hlod] at h1
-  have h2 := meshes_row m i l hl d mesh hm
-  rw [show psum meshCountOf m.lods i = ((m.lods.take i).map (·.meshes.length)).sum from rfl, hrow] at h2
-  cases h1; cases h2
-  exact element_address' m h i l hl d mesh hm e he s hs k hk
+          some ((s.data.drop (k * s.stride.toNat + e.offset.toNat)).take n) :=
+  (sameLayout_encode m h).element_address h i l hl d mesh hm lod hlod row hrow e he s hs k hk
 
 /-! ### 2. decoding one element -/
 
@@ -690,10 +782,11 @@ which the recorded finding on `decodeElement` does not apply -/
 def noWeightsByte4 (m : AbstractModel) : Bool :=
   m.lods.all fun l => l.meshes.all noWeightsByte4Mesh
 
-theorem readVertex_eq (m : AbstractModel) (h : WF m = true) (i : Nat) (l : ALod)
+theorem SameLayout.readVertex_eq {m : AbstractModel} {file : Bytes} (L : SameLayout m file)
+    (h : WF m = true) (i : Nat) (l : ALod)
     (hl : m.lods[i]? = some l) (d : Nat) (mesh : AMesh) (hm : l.meshes[d]? = some mesh)
     (hw : noWeightsByte4Mesh mesh = true) (k : Nat) (hk : k < mesh.vertexCount.toNat) :
-    readVertex (encodeMdl m).toArray (lodRowOf m i l) (meshRowOf m i l d mesh) mesh.decl k.toUInt16 =
+    readVertex file.toArray (lodRowOf m i l) (meshRowOf m i l d mesh) mesh.decl k.toUInt16 =
       .ok (vertexOf mesh k) := by
   have hvc : mesh.vertexCount ≠ 0 := by
     intro h0; rw [h0] at hk; simp at hk
@@ -705,7 +798,7 @@ theorem readVertex_eq (m : AbstractModel) (h : WF m = true) (i : Nat) (l : ALod)
     rcases hoff with hoff | hoff
     · exact hoff
     · exact absurd hoff hvc
-  obtain ⟨a, ha, _, hread⟩ := element_address' m h i l hl d mesh hm e he s hs k hk
+  obtain ⟨a, ha, _, hread⟩ := L.element_address' h i l hl d mesh hm e he s hs k hk
   have hn : ¬ (e.vertexUsage = VU.blendWeights ∧ e.vertexType = VT.byte4) := by
     simp only [noWeightsByte4Mesh, Bool.or_eq_true, beq_iff_eq, List.all_eq_true, Bool.not_eq_true',
       Bool.and_eq_false_iff] at hw
@@ -719,13 +812,14 @@ theorem readVertex_eq (m : AbstractModel) (h : WF m = true) (i : Nat) (l : ALod)
   simp only [hs]
 
 /-- **all vertices of a mesh** -/
-theorem readVertices_eq (m : AbstractModel) (h : WF m = true) (i : Nat) (l : ALod)
+theorem SameLayout.readVertices_eq {m : AbstractModel} {file : Bytes} (L : SameLayout m file)
+    (h : WF m = true) (i : Nat) (l : ALod)
     (hl : m.lods[i]? = some l) (d : Nat) (mesh : AMesh) (hm : l.meshes[d]? = some mesh)
     (hw : noWeightsByte4Mesh mesh = true) :
-    readVertices (encodeMdl m).toArray (lodRowOf m i l) (meshRowOf m i l d mesh) mesh.decl =
+    readVertices file.toArray (lodRowOf m i l) (meshRowOf m i l d mesh) mesh.decl =
       .ok (verticesOf mesh) := by
   unfold readVertices verticesOf
-  exact mapM_range_ok _ _ _ (fun k hk => readVertex_eq m h i l hl d mesh hm hw k hk)
+  exact mapM_range_ok _ _ _ (fun k hk => L.readVertex_eq h i l hl d mesh hm hw k hk)
 
 theorem noWeightsByte4_mesh (m : AbstractModel) (hw : noWeightsByte4 m = true) {i : Nat} {l : ALod}
     (hl : m.lods[i]? = some l) {d : Nat} {mesh : AMesh} (hm : l.meshes[d]? = some mesh) :
@@ -764,15 +858,16 @@ theorem header_indexOffset (m : AbstractModel) (h : WF m = true) (i : Nat) (l : 
   rfl
 
 /-- **indices**: the index address of the reader points at the mesh's indices -/
-theorem index_read (m : AbstractModel) (h : WF m = true) (i : Nat) (l : ALod)
+theorem SameLayout.index_read {m : AbstractModel} {file : Bytes} (L : SameLayout m file)
+    (h : WF m = true) (i : Nat) (l : ALod)
     (hl : m.lods[i]? = some l) (d : Nat) (mesh : AMesh) (hm : l.meshes[d]? = some mesh) :
     ∃ ioff, (fileHeader m).indexOffsets.get? i = some ioff ∧
       ioff.toNat + 2 * (meshRowOf m i l d mesh).startIndex.toNat < 4294967296 ∧
       (meshRowOf m i l d mesh).indexCount.toNat = mesh.indices.length ∧
-      readAt (encodeMdl m).toArray (ioff.toNat + 2 * (meshRowOf m i l d mesh).startIndex.toNat)
+      readAt file.toArray (ioff.toNat + 2 * (meshRowOf m i l d mesh).startIndex.toNat)
         (2 * mesh.indices.length) = some (mesh.indices.flatMap putU16le) := by
-  have hsl := index_slice m i l hl d mesh hm
-  have hlen := hsl.length_le
+  have hsl := index_slice_of m L.sec i l hl d mesh hm
+  have hlen := (index_slice m i l hl d mesh hm).length_le
   have hfl := (wf_facts m h).fileLen
   rw [length_meshIndexBytes, meshIndexWords] at hlen
   have hs : (meshRowOf m i l d mesh).startIndex.toNat = psum meshIndexWords l.meshes d :=
@@ -787,6 +882,15 @@ theorem index_read (m : AbstractModel) (h : WF m = true) (i : Nat) (l : ALod)
   rw [Nat.add_zero, List.drop_zero, ← length_flatMap_putU16le, List.take_length] at this
   rw [← length_flatMap_putU16le]
   exact this
+
+theorem index_read (m : AbstractModel) (h : WF m = true) (i : Nat) (l : ALod)
+    (hl : m.lods[i]? = some l) (d : Nat) (mesh : AMesh) (hm : l.meshes[d]? = some mesh) :
+    ∃ ioff, (fileHeader m).indexOffsets.get? i = some ioff ∧
+      ioff.toNat + 2 * (meshRowOf m i l d mesh).startIndex.toNat < 4294967296 ∧
+      (meshRowOf m i l d mesh).indexCount.toNat = mesh.indices.length ∧
+      readAt (encodeMdl m).toArray (ioff.toNat + 2 * (meshRowOf m i l d mesh).startIndex.toNat)
+        (2 * mesh.indices.length) = some (mesh.indices.flatMap putU16le) :=
+  (sameLayout_encode m h).index_read h i l hl d mesh hm
 
 theorem zip_range_map [Inhabited α] (l : List α) (F : Nat × α → β) :
     (List.zip (List.range l.length) l).map F =
@@ -875,7 +979,8 @@ theorem range_map_getD [Inhabited α] (l : List α) (f : α → β) :
     simp [List.getElem?_eq_getElem h2]
 
 /-- one `stride`-sized chunk of a stream, as read by `readStreams` -/
-theorem stream_chunk (m : AbstractModel) (h : WF m = true) (i : Nat) (l : ALod)
+theorem SameLayout.stream_chunk {m : AbstractModel} {file : Bytes} (L : SameLayout m file)
+    (h : WF m = true) (i : Nat) (l : ALod)
     (hl : m.lods[i]? = some l) (d : Nat) (mesh : AMesh) (hm : l.meshes[d]? = some mesh)
     (j : Nat) (s : AStream) (hs : mesh.streams[j]? = some s) (z : Nat)
     (hz : z < mesh.vertexCount.toNat) :
@@ -884,11 +989,11 @@ theorem stream_chunk (m : AbstractModel) (h : WF m = true) (i : Nat) (l : ALod)
       let a ← addU32 (lodRowOf m i l).vertexDataOffset off
       let b ← mulU32 z.toUInt32 s.stride.toUInt32
       let c ← addU32 a b
-      match readAt (encodeMdl m).toArray c.toNat s.stride.toNat with
+      match readAt file.toArray c.toNat s.stride.toNat with
       | some d => pure d
       | none => .error .fail : R Bytes) =
     .ok ((s.data.drop (z * s.stride.toNat)).take s.stride.toNat) := by
-  obtain ⟨h3, hdl, hlt, hsl⟩ := stream_bounds m h i l hl d mesh hm j s hs
+  obtain ⟨h3, hdl, hlt, hsl⟩ := L.stream_bounds h i l hl d mesh hm j s hs
   have hmul := mul_succ_le (st := s.stride.toNat) hz
   have hvc := mesh.vertexCount.toNat_lt
   have hz32 : z.toUInt32.toNat = z := toUInt32_toNat z (by omega)
@@ -915,9 +1020,10 @@ theorem stream_chunk (m : AbstractModel) (h : WF m = true) (i : Nat) (l : ALod)
   rfl
 
 /-- **raw streams** -/
-theorem readStreams_eq (m : AbstractModel) (h : WF m = true) (i : Nat) (l : ALod)
+theorem SameLayout.readStreams_eq {m : AbstractModel} {file : Bytes} (L : SameLayout m file)
+    (h : WF m = true) (i : Nat) (l : ALod)
     (hl : m.lods[i]? = some l) (d : Nat) (mesh : AMesh) (hm : l.meshes[d]? = some mesh) :
-    readStreams (encodeMdl m).toArray (lodRowOf m i l) (meshRowOf m i l d mesh) =
+    readStreams file.toArray (lodRowOf m i l) (meshRowOf m i l d mesh) =
       .ok (mesh.streams.map (·.data), mesh.streams.map (·.stride.toNat)) := by
   have MF := wf_mesh m h hl hm
   have hn : (meshRowOf m i l d mesh).vertexStreamCount.toNat = mesh.streams.length :=
@@ -935,13 +1041,13 @@ theorem readStreams_eq (m : AbstractModel) (h : WF m = true) (i : Nat) (l : ALod
     have hj' : j < mesh.streams.length := by simpa using hj
     have hs : mesh.streams[j]? = some mesh.streams[j] := List.getElem?_eq_getElem hj'
     generalize mesh.streams[j] = s at hs
-    obtain ⟨h3, hdl, _, _⟩ := stream_bounds m h i l hl d mesh hm j s hs
+    obtain ⟨h3, hdl, _, _⟩ := L.stream_bounds h i l hl d mesh hm j s hs
     rw [idx3_ok (row_strides m i l d mesh j s hs h3), R.ok_bind,
       mapM_range_ok (g := fun z => (s.data.drop (z * s.stride.toNat)).take s.stride.toNat)]
     · rw [R.ok_bind, flatten_chunks, ← hdl, List.take_length, hs]
       rfl
     · intro z hz
-      exact stream_chunk m h i l hl d mesh hm j s hs z hz
+      exact L.stream_chunk h i l hl d mesh hm j s hs z hz
 
 /-! ### 5. parts, LODs, the whole file -/
 
@@ -957,27 +1063,28 @@ def partOf (mb sb : Nat) (mesh : AMesh) (sh : List Shape) : Part :=
       fun (i, s) => ⟨sb + i, s.indexCount, s.indexOffset⟩
     shapes := sh }
 
-theorem readPart_eq (m : AbstractModel) (h : WF m = true) (hw : noWeightsByte4 m = true) (i : Nat)
+theorem SameLayout.readPart_eq {m : AbstractModel} {file : Bytes} (L : SameLayout m file)
+    (h : WF m = true) (hw : noWeightsByte4 m = true) (i : Nat)
     (l : ALod) (hl : m.lods[i]? = some l) (d : Nat) (mesh : AMesh) (hm : l.meshes[d]? = some mesh)
     (sh : List Shape)
     (hsh : readShapes (modelData m) i (meshRowOf m i l d mesh) (verticesOf mesh) mesh.indices = .ok sh) :
-    readPart (encodeMdl m).toArray (fileHeader m) (modelData m) i (lodRowOf m i l)
+    readPart file.toArray (fileHeader m) (modelData m) i (lodRowOf m i l)
         (psum meshCountOf m.lods i + d) =
       .ok (partOf (psum meshCountOf m.lods i + d) (subBase m i l d) mesh sh) := by
-  obtain ⟨ioff, hio, hib, hic, hread⟩ := index_read m h i l hl d mesh hm
+  obtain ⟨ioff, hio, hib, hic, hread⟩ := L.index_read h i l hl d mesh hm
   have h2 : (2 : UInt32).toNat = 2 := rfl
   have hmul := toNat_mul32 (meshRowOf m i l d mesh).startIndex 2 (by rw [h2]; omega)
   rw [h2] at hmul
   have hadd := toNat_add32 ioff ((meshRowOf m i l d mesh).startIndex * 2) (by rw [hmul]; omega)
   unfold readPart
   rw [idx_ok (decls_row m i l hl d mesh hm), R.ok_bind, idx_ok (meshes_row m i l hl d mesh hm),
-    R.ok_bind, readVertices_eq m h i l hl d mesh hm (noWeightsByte4_mesh m hw hl hm), R.ok_bind,
+    R.ok_bind, L.readVertices_eq h i l hl d mesh hm (noWeightsByte4_mesh m hw hl hm), R.ok_bind,
     idx3_ok hio, R.ok_bind, mulU32_ok _ _ (by rw [h2]; omega), R.ok_bind,
     addU32_ok _ _ (by rw [hmul]; omega), R.ok_bind, hadd, hmul, hic,
     Nat.mul_comm _ 2, hread]
   dsimp only
   rw [R.pure_eq, R.ok_bind, leU16s_flatMap_put, readSubmeshes_eq m h i l hl d mesh hm, R.ok_bind, hsh,
-    R.ok_bind, readStreams_eq m h i l hl d mesh hm, R.ok_bind]
+    R.ok_bind, L.readStreams_eq h i l hl d mesh hm, R.ok_bind]
   rfl
 
 theorem parts_suffix (m : AbstractModel) (lodIx : Nat) (F : Nat → R Part) (suf : List AMesh) :
@@ -1020,14 +1127,15 @@ theorem meshBase_le (m : AbstractModel) (i : Nat) (l : ALod) (hl : m.lods[i]? = 
     length_flatMap' _ meshCountOf (fun _ => rfl) _]
   exact this
 
-theorem readLod_eq (m : AbstractModel) (h : WF m = true) (hw : noWeightsByte4 m = true) (i : Nat)
+theorem SameLayout.readLod_eq {m : AbstractModel} {file : Bytes} (L : SameLayout m file)
+    (h : WF m = true) (hw : noWeightsByte4 m = true) (i : Nat)
     (l : ALod) (hl : m.lods[i]? = some l)
     (HS : ∀ d mesh sh, l.meshes[d]? = some mesh →
       shapesOf m i (psum meshIndexWords l.meshes d) mesh = some sh →
       readShapes (modelData m) i (meshRowOf m i l d mesh) (verticesOf mesh) mesh.indices = .ok sh)
     (ps : List Part)
     (hp : partsOf m i (psum meshCountOf m.lods i) 0 (psum lodSubCount m.lods i) l.meshes = some ps) :
-    readLod (encodeMdl m).toArray (fileHeader m) (modelData m) i = .ok ps := by
+    readLod file.toArray (fileHeader m) (modelData m) i = .ok ps := by
   have hle := meshBase_le m i l hl
   have hnm := (wf_facts m h).nMesh
   have hmi : (lodRowOf m i l).meshIndex.toNat = psum meshCountOf m.lods i :=
@@ -1043,7 +1151,7 @@ theorem readLod_eq (m : AbstractModel) (h : WF m = true) (hw : noWeightsByte4 m 
   apply parts_suffix m i _ l.meshes _ 0 (psum lodSubCount m.lods i) ps ?_ hp
   intro t mesh sh ht hsh
   rw [Nat.zero_add] at hsh
-  exact readPart_eq m h hw i l hl t mesh ht sh (HS t mesh sh ht hsh)
+  exact L.readPart_eq h hw i l hl t mesh ht sh (HS t mesh sh ht hsh)
 
 theorem lods_suffix (m : AbstractModel) (F : Nat → R (List Part)) (suf : List ALod) :
     ∀ (n j mb sb : Nat) (ls : List (List Part)), j + n = m.lodCount.toNat → n ≤ suf.length →
@@ -1099,12 +1207,13 @@ theorem lods_suffix (m : AbstractModel) (F : Nat → R (List Part)) (suf : List 
             exact this
 
 /-- the assembled theorem, relative to the agreement of `readShapes` with `shapesOf` -/
-theorem parse_encode_core (m : AbstractModel) (h : WF m = true) (hw : noWeightsByte4 m = true)
+theorem SameLayout.parse_core {m : AbstractModel} {file : Bytes} (L : SameLayout m file)
+    (h : WF m = true) (hw : noWeightsByte4 m = true)
     (HS : ∀ i l d mesh sh, m.lods[i]? = some l → l.meshes[d]? = some mesh →
       shapesOf m i (psum meshIndexWords l.meshes d) mesh = some sh →
       readShapes (modelData m) i (meshRowOf m i l d mesh) (verticesOf mesh) mesh.indices = .ok sh)
     (v : View) (hv : view m = some v) :
-    fromExisting (encodeMdl m) =
+    fromExisting file =
       .ok { fileHeader := fileHeader m, modelData := modelData m, lods := v.lods,
             affectedBoneNames := v.affectedBoneNames, materialNames := v.materialNames } := by
   have W := wf_facts m h
@@ -1114,21 +1223,32 @@ theorem parse_encode_core (m : AbstractModel) (h : WF m = true) (hw : noWeightsB
     simp only [view, hlv, Option.bind_eq_bind, Option.bind_some, Option.some.injEq] at hv
     subst hv
     have hl : (List.range (modelData m).header.lodCount.toNat).mapM
-        (readLod (encodeMdl m).toArray (fileHeader m) (modelData m)) = .ok ls := by
+        (readLod file.toArray (fileHeader m) (modelData m)) = .ok ls := by
       show (List.range m.lodCount.toNat).mapM _ = _
       rw [List.range_eq_range']
       apply lods_suffix m _ m.lods m.lodCount.toNat 0 0 0 ls (by omega) (by have := W.lc3; have := W.lods3; omega) ?_ hlv
       intro t l ps ht _ hp
       rw [Nat.zero_add] at hp ⊢
       rw [Nat.zero_add, Nat.zero_add] at hp
-      exact readLod_eq m h hw t l ht (fun d mesh sh hm hs => HS t l d mesh sh ht hm hs) ps hp
+      exact L.readLod_eq h hw t l ht (fun d mesh sh hm hs => HS t l d mesh sh ht hm hs) ps hp
+    obtain ⟨rest, rest', hfh, hmd⟩ := L.hdr
     unfold fromExisting
-    rw [parse_fileHeader, R.ok_bind]
+    rw [hfh, R.ok_bind]
     dsimp only
-    rw [parse_modelData m h, R.ok_bind]
+    rw [hmd, R.ok_bind]
     dsimp only
     rw [bone_names m h, R.ok_bind, material_names m h, R.ok_bind, hl, R.ok_bind]
     rfl
+
+theorem parse_encode_core (m : AbstractModel) (h : WF m = true) (hw : noWeightsByte4 m = true)
+    (HS : ∀ i l d mesh sh, m.lods[i]? = some l → l.meshes[d]? = some mesh →
+      shapesOf m i (psum meshIndexWords l.meshes d) mesh = some sh →
+      readShapes (modelData m) i (meshRowOf m i l d mesh) (verticesOf mesh) mesh.indices = .ok sh)
+    (v : View) (hv : view m = some v) :
+    fromExisting (encodeMdl m) =
+      .ok { fileHeader := fileHeader m, modelData := modelData m, lods := v.lods,
+            affectedBoneNames := v.affectedBoneNames, materialNames := v.materialNames } :=
+  (sameLayout_encode m h).parse_core h hw HS v hv
 
 theorem shapeRows_nil (m : AbstractModel) (hs : m.shapes = []) : (modelData m).shapes = [] := by
   show shapeRows m = []
@@ -1377,6 +1497,22 @@ theorem readShapes_eq (m : AbstractModel) (h : WF m = true) (i : Nat) (l : ALod)
           rfl
 
 
+/-- **the whole file, for every file with the layout of `m`** (exported as
+`c06_parse_any_file_partial`): well-formed `m` outside the recorded `(BlendWeights, Byte4)` class;
+`view m = some v` says the shape tables refer inside their meshes -/
+theorem SameLayout.parse {m : AbstractModel} {file : Bytes} (L : SameLayout m file)
+    (h : WF m = true) (hw : noWeightsByte4 m = true) (v : View) (hv : view m = some v) :
+    fromExisting file =
+      .ok { fileHeader := fileHeader m, modelData := modelData m, lods := v.lods,
+            affectedBoneNames := v.affectedBoneNames, materialNames := v.materialNames } :=
+  L.parse_core h hw
+    (fun i l d mesh sh hl hm hsh => readShapes_eq m h i l hl d mesh hm sh hsh) v hv
+
+theorem SameLayout.parse_view {m : AbstractModel} {file : Bytes} (L : SameLayout m file)
+    (h : WF m = true) (hw : noWeightsByte4 m = true) (v : View) (hv : view m = some v) :
+    (fromExisting file).map MDL.view = .ok v := by
+  rw [L.parse h hw v hv]; rfl
+
 /-- **parse ∘ encode** on every well-formed model outside the recorded `(BlendWeights, Byte4)`
 class; `view m = some v` says the shape tables refer inside their meshes -/
 theorem parse_encode (m : AbstractModel) (h : WF m = true) (hw : noWeightsByte4 m = true)
@@ -1384,12 +1520,11 @@ theorem parse_encode (m : AbstractModel) (h : WF m = true) (hw : noWeightsByte4 
     fromExisting (encodeMdl m) =
       .ok { fileHeader := fileHeader m, modelData := modelData m, lods := v.lods,
             affectedBoneNames := v.affectedBoneNames, materialNames := v.materialNames } :=
-  parse_encode_core m h hw
-    (fun i l d mesh sh hl hm hsh => readShapes_eq m h i l hl d mesh hm sh hsh) v hv
+  (sameLayout_encode m h).parse h hw v hv
 
 theorem parse_encode_view (m : AbstractModel) (h : WF m = true) (hw : noWeightsByte4 m = true)
     (v : View) (hv : view m = some v) :
-    (fromExisting (encodeMdl m)).map MDL.view = .ok v := by
-  rw [parse_encode m h hw v hv]; rfl
+    (fromExisting (encodeMdl m)).map MDL.view = .ok v :=
+  (sameLayout_encode m h).parse_view h hw v hv
 
 end Physis.Mdl
